@@ -706,7 +706,7 @@ fn main() {
                         let name = f.sig.ident.to_string();
                         let mut ms = MemScan { out: Vec::new() };
                         ms.visit_block(&f.block);
-                        if rel.contains("x86/") || rel.ends_with("aarch64.rs") || rel.ends_with("wasm.rs") || rel.ends_with("builder.rs") {
+                        if rel.contains("x86/") || rel.ends_with("builder.rs") {
                             let items: Vec<String> = ms.out.iter().map(|s| coq_str(s)).collect();
                             mem_entries.push(format!("({}, {})", coq_str(&format!("{}::{}::{}", rel, if tr.is_empty() { ty.clone() } else { format!("<{} as {}>", ty, tr) }, name)), coq_list(&items)));
                         }
@@ -733,7 +733,7 @@ fn main() {
             if let syn::Item::Fn(f) = it {
                 let mut ms = MemScan { out: Vec::new() };
                 ms.visit_block(&f.block);
-                if rel.contains("x86/") || rel.ends_with("aarch64.rs") || rel.ends_with("wasm.rs") {
+                if rel.contains("x86/") {
                     let items: Vec<String> = ms.out.iter().map(|s| coq_str(s)).collect();
                     mem_entries.push(format!("({}, {})", coq_str(&format!("{}::{}", rel, f.sig.ident)), coq_list(&items)));
                 }
